@@ -70,6 +70,8 @@ type c06Config struct {
 	Msg       string // message logged (std-log front ends trim surrounding white space)
 	BufSize   int    // BufferedWriteSyncer size (0 = 1 MiB, -1 = no buffering: the core writes straight to the sink)
 	Fault     string // "" | writeerr | syncerr | corefail-before | corefail-after: a failing destination must not prevent termination
+	Before    []int  // lengths of ordinary entries logged before the terminal one (they sit in the buffer)
+	Family    string // "" | sibling-hooks | child-hooks | parent-hooks: another member of the logger family is derived with different terminal hooks (and used) first
 }
 
 // c06FailCore accepts every entry and fails to write it.
@@ -278,6 +280,13 @@ func propC06(t *rapid.T) {
 	cfg.Msg = rapid.SampledFrom([]string{"", "", "<empty>", " ", "\n", "  padded  ", "two\nlines", strings.Repeat("long ", 300)}).Draw(t, "message")
 	cfg.BufSize = rapid.SampledFrom([]int{0, 0, 16, 256, 4096, -1}).Draw(t, "bufferSize")
 	cfg.Fault = rapid.SampledFrom([]string{"", "", "", "writeerr", "syncerr", "corefail-before", "corefail-after"}).Draw(t, "fault")
+	if cfg.Fault == "" {
+		nb := rapid.IntRange(0, 3).Draw(t, "entriesBefore")
+		for i := 0; i < nb; i++ {
+			cfg.Before = append(cfg.Before, rapid.SampledFrom([]int{0, 1, 10, 40, 100, 200, 1000, 5000}).Draw(t, "beforeLen"))
+		}
+	}
+	cfg.Family = rapid.SampledFrom([]string{"", "", "sibling-hooks", "child-hooks", "parent-hooks"}).Draw(t, "family")
 	c06RunInProcess(t, cfg)
 	enabled := c06Enabled(cfg)
 	nt := !enabled || cfg.Hook == "nil" || cfg.Hook == "noop" || (enabled && cfg.Core != "nop")
@@ -325,6 +334,24 @@ func c06RunInProcess(t interface{ Fatalf(string, ...any) }, cfg c06Config) {
 		opts = append(opts, zap.WithFatalHook(hook), zap.WithPanicHook(hook))
 	}
 	lg := zap.New(core, opts...)
+	// other members of the logger family get DIFFERENT terminal hooks (and are used): the logger under test keeps its own
+	otherHook := &recHook{under: under}
+	switch cfg.Family {
+	case "sibling-hooks":
+		sib := lg.WithOptions(zap.WithFatalHook(otherHook), zap.WithPanicHook(otherHook))
+		_ = sib.Check(zapcore.Level(-5), "unused")
+	case "child-hooks":
+		child := lg.With(zap.Int("c", 1)).WithOptions(zap.WithFatalHook(zapcore.WriteThenGoexit), zap.WithPanicHook(otherHook))
+		_ = child.Named("x")
+	case "parent-hooks":
+		// the logger under test is itself derived; afterwards the parent is re-derived with other hooks
+		parent := lg
+		lg = parent.Named("kid")
+		_ = parent.WithOptions(zap.WithFatalHook(otherHook), zap.WithPanicHook(otherHook), zap.OnFatal(zapcore.WriteThenGoexit))
+	}
+	for i, n := range cfg.Before {
+		lg.Info(fmt.Sprintf("before-%d-%s", i, strings.Repeat("b", n)))
+	}
 	fes, restore := c06FrontEnds(lg, cfg.Level, cfg.msg())
 	f := fes[cfg.Front]
 	lvl := c06LevelOf[cfg.Level]
@@ -412,6 +439,13 @@ func c06RunInProcess(t interface{ Fatalf(string, ...any) }, cfg c06Config) {
 	}
 	mj, _ := json.Marshal(cfg.loggedMsg())
 	line := fmt.Sprintf("{\"l\":%q,\"m\":%s", lvl.String(), mj)
+	nBefore := 0
+	if cfg.Threshold <= 0 {
+		nBefore = len(cfg.Before)
+	}
+	if otherHook.n != 0 {
+		t.Fatalf("%s: a terminal hook configured on ANOTHER logger of the family ran %d times", desc, otherHook.n)
+	}
 	if c06Enabled(cfg) && cfg.Fault == "writeerr" {
 		// the sink rejects every write: the entry cannot be there, but the write
 		// must have been attempted and the other tee branch must have the entry
@@ -425,14 +459,22 @@ func c06RunInProcess(t interface{ Fatalf(string, ...any) }, cfg c06Config) {
 		if !strings.Contains(sinkAt, line) {
 			t.Fatalf("%s: when the terminal action ran the underlying sink (below the buffer) held %q, not the entry", desc, sinkAt)
 		}
-		if strings.Count(sinkNow, "\n") != 1 {
-			t.Fatalf("%s: sink holds %d lines for one entry", desc, strings.Count(sinkNow, "\n"))
+		if strings.Count(sinkNow, "\n") != 1+nBefore {
+			t.Fatalf("%s: sink holds %d lines for %d entries", desc, strings.Count(sinkNow, "\n"), 1+nBefore)
+		}
+		for i := 0; i < nBefore; i++ {
+			if !strings.Contains(sinkAt, fmt.Sprintf("before-%d-", i)) {
+				t.Fatalf("%s: when the terminal action ran, the earlier entry %d was not in the underlying sink: %q", desc, i, clipS(sinkAt))
+			}
+		}
+		if otherHook.n != 0 {
+			t.Fatalf("%s: a terminal hook configured on ANOTHER logger of the family ran %d times", desc, otherHook.n)
 		}
 		if syncedAt < len(sinkAt) || syncedAt == 0 {
 			t.Fatalf("%s: sink was not synced after the final entry (synced %d of %d bytes)", desc, syncedAt, len(sinkAt))
 		}
-		if logs != nil && obsAt != 1 {
-			t.Fatalf("%s: observer branch of the tee had %d entries when the terminal action ran", desc, obsAt)
+		if logs != nil && obsAt != 1+nBefore {
+			t.Fatalf("%s: observer branch of the tee had %d entries when the terminal action ran, want %d", desc, obsAt, 1+nBefore)
 		}
 	} else {
 		if sinkNow != "" || obsNow != 0 {
